@@ -13,6 +13,7 @@ import accfg_common as ac
 from xdsl.dialects import arith, func, scf
 
 Unsupported = ac.Unsupported
+FIXED = True  # set by props/c07.py: the pass with fixes/FC07a (then a loop may carry the state of an accelerator it does not set up)
 
 
 class _Base(ac.Conv):
@@ -89,7 +90,7 @@ class ConvP(_Base):
             accs = [r.type.accelerator.data for r in op.results]
             if len(set(accs)) != len(accs):
                 raise Unsupported("pre-threaded scf.for carrying two states of one accelerator")
-            if any(a not in inside for a in accs):
+            if not FIXED and any(a not in inside for a in accs):
                 raise Unsupported("pre-threaded scf.for carrying the state of an accelerator it does not set up")
             inits = []
             for v in op.iter_args:
@@ -247,9 +248,13 @@ def prethread_loops(src: str, rng: random.Random, nloops=2):
                 continue
             inner = ind + "  "
             body_setups = [(k, m) for k in range(i + 1, j) if (m := ac._SETUP_RE.match(lines[k])) and m.group(1) == inner]
-            if not body_setups:
+            cands = sorted({m.group(3) for _, m in body_setups})
+            if rng.random() < 0.2:
+                # also an accelerator the body does not set up at its top level (the loop then just passes its state through)
+                cands = sorted(set(cands) | {m.group(3) for l in lines[:i] if (m := ac._SETUP_RE.match(l)) and m.group(1) == ind})
+            if not cands:
                 continue
-            acc = rng.choice(sorted({m.group(3) for _, m in body_setups}))
+            acc = rng.choice(cands)
             mine = [(k, m) for k, m in body_setups if m.group(3) == acc]
             before = []
             k = i - 1
@@ -261,16 +266,20 @@ def prethread_loops(src: str, rng: random.Random, nloops=2):
             if not before:
                 continue
             init = before[0] if rng.random() < 0.8 else rng.choice(before)
-            yk, ym = mine[-1] if rng.random() < 0.8 else rng.choice(mine)
             u = rng.randrange(10 ** 6)
             arg, res = f"%pa{u}", f"%pr{u}"
             ty = ac.st_ty(acc)
-            fk, fm = mine[0]
-            if rng.random() < 0.85:
-                ind_, name, acc_, frm, params, ty_ = fm.groups()
-                lines[fk] = f'{ind_}{name} = accfg.setup "{acc}" from {arg} to ({params}) : {ty_}'
+            if mine:
+                yk, ym = mine[-1] if rng.random() < 0.8 else rng.choice(mine)
+                yname = ym.group(2)
+                fk, fm = mine[0]
+                if rng.random() < 0.85:
+                    ind_, name, acc_, frm, params, ty_ = fm.groups()
+                    lines[fk] = f'{ind_}{name} = accfg.setup "{acc}" from {arg} to ({params}) : {ty_}'
+            else:
+                yname = arg
             lines[i] = f"{ind}{res} = scf.for {iv} = {lb} to {ub} step {st} iter_args({arg} = {init}) -> ({ty}) {{"
-            lines.insert(j, f"{inner}scf.yield {ym.group(2)} : {ty}")
+            lines.insert(j, f"{inner}scf.yield {yname} : {ty}")
             if rng.random() < 0.25:
                 # an unannotated call behind the yielded setup: the (pre-existing) yield is stale
                 lines.insert(j, f"{inner}func.call @g() : () -> ()")
